@@ -115,7 +115,8 @@ class Cacheable(ABC):
     def fingerprint(self, options: Options) -> bytes:
         """Return a fingerprint, which is a unique identifier for a given evaluation."""
         return json.dumps(
-            [{key: get_dotted_key(key, options)} for key in sorted(self.keys(options))]
+            [{key: get_dotted_key(key, options)} for key in sorted(self.keys(options))],
+            sort_keys=True,
         ).encode()
 
     def __labrea_keys__(self, options: Options) -> Set[str]:
